@@ -1,5 +1,6 @@
 """C10 - cancellation stops scheduling and ends in canceled."""
 from ovf import workloads
+from ovf.props.c03 import parked  # noqa: F401
 from ovf.props.common import batches, family_slices, scale, ASSUME_SIM
 from ovf.sim import explore
 from ovf.sim.provider import Monitor, h64
@@ -12,7 +13,7 @@ RULE = ("base histories = generated definitions (downstream joins, retries, with
         "action still reports (any outcome), then the output is rendered; asserted at every later step: no offer, "
         "status canceling while an action is in flight and canceled as soon as none is, final status canceled after "
         "rendering, rendering does not raise and every output variable shows its initial value or a value published "
-        "for it; additionally the decision-shape family (exhaustive in the thorough tier, a rotating slice in the quick tier): every acyclic edge set over 4 tasks with a join x condition succeeded/failed per edge x outcome per task (4128 definitions); non-trivial = cancel accepted with >= 1 action in flight; distinct = (definition, history, position, "
+        "for it; additionally the decision-shape family (exhaustive in the thorough tier, a rotating slice in the quick tier): every acyclic edge set over 4 tasks with a join x condition succeeded/failed per edge x outcome per task (4128 definitions); tasks that wait at the provider (pending / paused) when the cancel request comes, their answers arriving after the workflow was canceled; non-trivial = cancel accepted with >= 1 action in flight; distinct = (definition, history, position, "
         "form) digest")
 ASSUMPTIONS = ASSUME_SIM + ["which published value an output variable shows after a cancel is left open by the property; only membership is checked"]
 
@@ -175,6 +176,10 @@ def jobs(tier, seed):
                    thin=scale(tier, 3, 1), name="cancel-sweep")
     # decision-shape family (exhaustive in the thorough tier, a rotating slice in the quick tier): every acyclic edge set over 4 tasks with a join x condition succeeded/failed per edge x outcome per task (4128 definitions)
     js += family_slices("cancel_sweep", 4128, 48, tier, seed, gen="cshape", thin=scale(tier, 3, 1), p_fail=0.0, name="decision-shapes-cancel-sweep")
+    # tasks that wait at the provider (pending / paused) when the cancel request comes: the workflow is canceled at once and
+    # their answers arrive late
+    js += batches("parked", scale(tier, 120, 2500), scale(tier, 10, 100), gen="dag", gseed=seed + 13, p_fail=0.35, cancel_at_rest=60, p_park=45,
+                  P=dict(p_intjoin=0.2, p_items=0.2, p_retry=0.1, p_fail_cmd=0.2, nmax=5), scheds=2, name="cancel-while-a-task-waits")
     return js
 
 
